@@ -324,13 +324,24 @@
  * ghost accounting of the snprintf contract stub (stubs/snprintf.h) and the arena frame fact
  * (include/traversal.arena.h).  Only defined in the printer driver (VERIF_PRINTERS). */
 #ifdef VERIF_PRINTERS
+#ifdef VERIF_ASPRINTF   /* destination is asprintf's own malloc'ed block: no harness arena, no ghost sum */
+#define PR_CURSOR \
+  LI(size >= 0 && (size_t)size <= buflen && (buflen == 0 || size >= 1)) \
+  LI(buf == (char *)0 ? tmp == (char *)0 : (__CPROVER_same_object(tmp, buf) && tmp == buf + (buflen - (size_t)size))) \
+  LI(ret >= 0)
+#else
 #define PR_CURSOR \
   LI(size >= 0 && (size_t)size <= buflen && (buflen == 0 || size >= 1)) \
   LI(buf == (char *)0 ? tmp == (char *)0 : (__CPROVER_same_object(tmp, buf) && tmp == buf + (buflen - (size_t)size))) \
   LI(!verif_snprintf_neg && ret >= 0 && (long)ret == verif_snprintf_sum) \
   LI(buflen == 0 || buf[0] == 0 || (verif_last_nul < buflen && buf[verif_last_nul] == 0)) \
   LI(VERIF_FRAME_OK)
+#endif
+#ifdef VERIF_ASPRINTF
+#define PR_ASSIGNS res, ret, tmp, size, verif_snprintf_neg, verif_last_nul, verif_snprintf_calls, __CPROVER_object_whole(buf)
+#else
 #define PR_ASSIGNS res, ret, tmp, size, verif_snprintf_sum, verif_snprintf_neg, verif_last_nul, verif_snprintf_calls, verif_arena
+#endif
 #define PR_SKIP(lo) LA(i) LI((lo) - 1 <= i && i < (int)set->ulongs_count) LD(i + 1)
 #define HWLOC_VERIF_LOOP_hwloc_bitmap_snprintf_1 PR_SKIP(0)
 #define HWLOC_VERIF_LOOP_hwloc_bitmap_snprintf_2 PR_SKIP(0)
